@@ -105,7 +105,9 @@ def check_hist(case, iout, ires, spec_text, want=("answers", "output", "exhauste
                     return
                 got = o[2]
                 lz = s[3] if len(s) > 3 else None
-                exact = lz is not None and pos[q] < len(lz[0]) and builds[q] == 0 and len(builds) == 1 and "answers" in want
+                # (after a set-id operation the ids differ from the reference's by construction: answers are then compared up to renaming only)
+                exact = (lz is not None and pos[q] < len(lz[0]) and builds[q] == 0 and len(builds) == 1 and "answers" in want
+                         and not any(p[0] == "set-id" for p in ops[:k]))
                 if exact: STATS["answers_compared_exactly_with_continuation_reference"] += 1
                 if exact and sx_text(o[1]) != lz[0][pos[q]]:
                     # single query: the continuation-style reference search (Spec/SpecLazy.v, Spec/SpecCut.v; proved equal
